@@ -2,8 +2,9 @@
 
 1. lake build Lcapy.Props.C04 (port_affine, port_affine_unique, thevenin_norton_equiv, thevenin_port, norton_port,
    load_invariance, killAll_has_no_sources), Props/C04Ground (reground_laws_iff, measure_ground_independent and the
-   seven quantities), Props/C04Ops (killAll_indep_zero, killed_ivp_is_lap, voc_keeps_ics, zparams_rel, yparams_rel, …),
-   axioms audit.
+   seven quantities), Props/C04Ops (killAll_indep_zero, killed_ivp_is_lap, experiments_from_source, voc_keeps_ics,
+   zparams_rel, yparams_rel, …), Props/C04Load (load_substitution, thevenin_any_load, model_any_load, isc_voc_zth,
+   impedance_admittance_inverse), the auditors' witness file Props/NonVacuityC04; axioms audit.
 2. Correspondence: Voc between random node pairs and the driving-point impedance (all sources
    AND initial conditions killed, 1 A probe) computed by the Lean MNA model from the raw netlist
    against `cct.thevenin(p, m)` / `cct.impedance(p, m)` of the real Lcapy at rational points.
@@ -30,6 +31,21 @@ from gen_netlist import fs
 from c01 import parse_reply, norm
 
 warnings.filterwarnings('ignore')
+
+
+def lean_with_retry(chk, files, **kw):
+    """`chk.lean`, repeated when the axiom audit itself could not run: the audit (`lake env lean <audit file>`) is not
+    under the build lock, so it fails with a Lean error when another engineer's build is rewriting a shared .olean at that
+    moment.  That is infrastructure trouble, not a broken obligation; a persistent failure is reported as such."""
+    import time as _t
+    broken = []
+    for attempt in range(3):
+        broken = chk.lean(files, **kw)
+        if 'audit:lean-error' not in broken:
+            return broken
+        chk.count('infrastructure', 'axiom-audit-retried')
+        _t.sleep(15 + 15 * attempt)
+    raise common.Infra('the axiom audit could not run: ' + str(chk.coverage.get('audit', {}).get('log', ''))[-400:])
 
 
 class hard_time_limit(common.time_limit):
@@ -59,7 +75,8 @@ def run(chk, replay=None):
                                   'operations': [list(r[:1]) + [r[2], r[4], r[6]] for r in ginfo['ops']],
                                   'helpers': [list(h[:5]) for h in ginfo['helpers']],
                                   'killNoArgsKillsICs': ginfo['killNoArgsKillsICs'], 'addGround': ginfo['addGround']}
-    broken = chk.lean(['Lcapy/Props/C04.lean', 'Lcapy/Props/C04Ground.lean', 'Lcapy/Props/C04Ops.lean', 'Lcapy/Props/C04Load.lean'],
+    broken = lean_with_retry(chk, ['Lcapy/Props/C04.lean', 'Lcapy/Props/C04Ground.lean', 'Lcapy/Props/C04Ops.lean', 'Lcapy/Props/C04Load.lean',
+                                   'Lcapy/Props/NonVacuityC04.lean'],
                       helper_files=['Lcapy/Proofs/Linear.lean', 'Lcapy/Proofs/MNA.lean', 'Lcapy/Model/MNA.lean',
                                     'Lcapy/Model/Sources.lean', 'Lcapy/Spec/Laws.lean', 'Lcapy/Props/C03.lean',
                                     'Lcapy/Proofs/Ground.lean', 'Lcapy/Proofs/PortOps.lean', 'Lcapy/Model/PortOps.lean', 'Lcapy/Generated/PortOps.lean', 'Lcapy/Driver/C04.lean'],
